@@ -309,6 +309,53 @@ func genEscape(c *ctx) {
 		esc2, un2 := trzsz.VerifEscapeCodes(t)
 		c.emit(true, "builtin_table", codesStr(esc2, un2), fmt.Sprint(map[bool]int{false: 0, true: 1}[all]))
 	}
+	// 1b. an escape pair the table does not define is rejected, never guessed (direct oracle on the
+	// implementation, no model involved): every undefined code x both built-in tables and a few
+	// announced ones x the flat decoder with several destination sizes x the streaming reader
+	// with the stream cut everywhere (between the leader and its code too)
+	undefinedPairs := func(ps []pair, kind string) {
+		t := mustTable(ps)
+		ta := tableArg(ps)
+		defined := map[byte]bool{}
+		for _, p := range ps {
+			defined[p.c] = true
+		}
+		for code := 0; code < 256; code++ {
+			if defined[byte(code)] {
+				continue
+			}
+			in := []byte{'x', 0xee, byte(code), 'y'}
+			for _, dl := range []int{0, 1, 2, 3, 8} {
+				var dst []byte
+				if dl > 0 {
+					dst = make([]byte, dl)
+				}
+				buf, rem, err := trzsz.VerifUnescapeData(append([]byte(nil), in...), t, dst)
+				if err == nil && (dl == 0 || len(buf)+len(rem) == 0 || len(rem) < 3) {
+					// consumed the pair without an error (a short destination may stop in front of it)
+					c.violate("undefined-pair-accepted:flat", "unescapeData decoded an escape pair the table does not define",
+						fmt.Sprintf("table=%s in=%s dst=%d got=%s rem=%s", ta, hx(in), dl, hx(buf), hx(rem)))
+				}
+			}
+			if code%8 == c.rng.Intn(8) || kind == "builtin" {
+				for _, cs := range [][][]byte{{in}, {in[:2], in[2:]}, {in[:1], in[1:2], in[2:3], in[3:]}} {
+					for _, dflt := range []int{1, 2, 64} {
+						res := runReader(t, cs, nil, dflt)
+						if !strings.HasSuffix(res, fmt.Sprintf(":err:%d", code)) {
+							c.violate("undefined-pair-accepted:reader", "escapeReader decoded an escape pair the table does not define",
+								fmt.Sprintf("table=%s chunks=%s bufsize=%d got=%s", ta, hxs(cs), dflt, res))
+						}
+					}
+				}
+			}
+			c.count("undefined-pair:" + kind)
+		}
+	}
+	undefinedPairs(builtinPairs(false), "builtin")
+	undefinedPairs(builtinPairs(true), "builtin")
+	for i := 0; i < c.pick(4, 40); i++ {
+		undefinedPairs(c.wfTable(), "wf-table")
+	}
 	// 2. random well-formed tables, dense data
 	for i := 0; i < c.pick(300, 6000); i++ {
 		ps := c.wfTable()
